@@ -57,6 +57,8 @@ def abs_same(a, b):
     if a is MISSING_MARK or b is MISSING_MARK:
         return a is b
     if isinstance(a, dict) and isinstance(b, dict):
+        if "__spec__" in a or "__spec__" in b:  # abstract spec instance: attribute order is not state
+            return len(a) == len(b) and all(k in b and abs_same(a[k], b[k]) for k in a)
         return list(a.keys()) == list(b.keys()) and all(abs_same(a[k], b[k]) for k in a)
     if isinstance(a, list) and isinstance(b, list):
         return len(a) == len(b) and all(abs_same(x, y) for x, y in zip(a, b))
@@ -245,3 +247,267 @@ def build_k1(NS, P, xset=True):
     if xset:
         kw["x"] = P["x0"]
     return NS.K1(**kw)
+
+
+# ---------------------------------------------------------------------------------------------------------------------
+# K3: nested spec values (scalar helpers on `inner` (no default) / `inner2` (default factory) and top-level update)
+
+K3_OPS = ["with_kw", "with_obj", "with_obj_kw", "update_kw", "transform_kw", "transform_fn", "reset", "update_top", "transform_top", "setattr_obj", "with_dict"]
+
+
+def build_k3(NS, P, inner_set=True):
+    kw = dict(y=P["n0"], kids=[NS.Inner(a=P["x0"])])
+    if inner_set:
+        kw["inner"] = NS.Inner(a=P["i0"], tags=["p"])
+    return NS.K3(**kw)
+
+
+def k3_ops(NS, opname, attr, P, inplace, if_=True):
+    """attr in {"inner", "inner2"}."""
+    kw = {}
+    if inplace:
+        kw["_inplace"] = True
+    if not if_:
+        kw["_if"] = False
+    noop = not if_
+    v = P["i1"]
+
+    def old(st):
+        cur = st[attr]
+        return cur if cur is not MISSING_MARK else None
+
+    if opname == "with_kw":  # a freshly built nested spec from keywords
+        return Op(f"with_{attr}(a=v)", lambda o: getattr(o, f"with_{attr}")(a=v, **kw), [v], lambda st: set_state(st, attr, inner_state(v)), None, inplace, noop)
+    if opname == "with_obj":
+        obj = NS.Inner(a=v, tags=["q"])
+        return Op(f"with_{attr}(obj)", lambda o: getattr(o, f"with_{attr}")(obj, **kw), [obj], lambda st: set_state(st, attr, inner_state(v, ["q"])), None, inplace, noop)
+    if opname == "with_obj_kw":
+        obj = NS.Inner(a=v, tags=["q"])
+        c = P["i2"]
+        return Op(f"with_{attr}(obj,a=c)", lambda o: getattr(o, f"with_{attr}")(obj, a=c, **kw), [obj], lambda st: set_state(st, attr, inner_state(c, ["q"])), None, inplace, noop)
+    if opname == "with_dict":  # dict-to-spec casting
+        d = {"a": v}
+        return Op(f"with_{attr}(dict)", lambda o: getattr(o, f"with_{attr}")(d, **kw), [d], lambda st: set_state(st, attr, inner_state(v)), None, inplace, noop)
+    if opname == "update_kw":  # merge keywords into the existing nested value (a new one when there is none)
+
+        def eff(st):
+            cur = old(st)
+            return set_state(st, attr, inner_state(v, cur["tags"] if cur else []))
+
+        return Op(f"update_{attr}(a=v)", lambda o: getattr(o, f"update_{attr}")(a=v, **kw), [v], eff, None, inplace, noop)
+    if opname == "transform_kw":
+        c = P["i2"]
+        fn = fn_add(c)
+
+        def eff(st):
+            cur = old(st)
+            assume(cur is not None)
+            return set_state(st, attr, inner_state(cur["a"] + c, cur["tags"]))
+
+        return Op(f"transform_{attr}(a=fn)", lambda o: getattr(o, f"transform_{attr}")(a=fn, **kw), [fn], eff, None, inplace, noop)
+    if opname == "transform_fn":
+        fn = lambda cur: NS.Inner(a=v)
+        return Op(f"transform_{attr}(fn)", lambda o: getattr(o, f"transform_{attr}")(fn, **kw), [fn], lambda st: set_state(st, attr, inner_state(v)), None, inplace, noop)
+    if opname == "reset":
+        if attr == "inner":
+            assume(P.get("inner_set", True))  # resetting an attribute that has neither value nor default: not claimed
+        return Op(f"reset_{attr}", lambda o: getattr(o, f"reset_{attr}")(**kw), [], lambda st: set_state(st, attr, fresh_default("K3", attr)), None, inplace, noop)
+    if opname == "update_top":  # several changes at once through the top-level helper
+        obj = NS.Inner(a=v)
+        c = P["i2"]
+        return Op("update(y,attr)", lambda o: o.update(**{"y": c, attr: obj}, **kw), [obj], lambda st: set_state(set_state(st, "y", c), attr, inner_state(v)), None, inplace, noop)
+    if opname == "transform_top":
+        c = P["i2"]
+        fn = fn_add(c)
+        return Op("transform(y)", lambda o: o.transform(y=fn, **kw), [fn], lambda st: set_state(st, "y", st["y"] + c), None, inplace, noop)
+    if opname == "setattr_obj":
+        obj = NS.Inner(a=v)
+
+        def call(o):
+            setattr(o, attr, obj)
+            return o
+
+        return Op(f"setattr_{attr}", call, [obj], lambda st: set_state(st, attr, inner_state(v)), None, True, False)
+    raise AssertionError(opname)
+
+
+# ---------------------------------------------------------------------------------------------------------------------
+# K5: prepared values
+
+
+def build_k5(NS, P):
+    return NS.K5(x=P["x0"], w=P["n0"])
+
+
+def k5_ops(NS, opname, P, inplace):
+    kw = {"_inplace": True} if inplace else {}
+    if opname == "with_pw_str":  # the preparer casts str -> int (its length)
+        s = pick(["", "a", "abc"], P["sel3"])
+        return Op("with_pw(str)", lambda o: o.with_pw(s, **kw), [s], lambda st: set_state(st, "pw", len(s)), None, inplace)
+    if opname == "with_pw_int":
+        v = P["i1"]
+        return Op("with_pw(int)", lambda o: o.with_pw(v, **kw), [v], lambda st: set_state(st, "pw", v), None, inplace)
+    if opname == "setattr_pw_str":
+        s = pick(["", "a", "abc"], P["sel3"])
+
+        def call(o):
+            o.pw = s
+            return o
+
+        return Op("setattr_pw(str)", call, [s], lambda st: set_state(st, "pw", len(s)), None, True)
+    if opname == "update_pw_str":
+        s = pick(["", "a", "abc"], P["sel3"])
+        return Op("update(pw=str)", lambda o: o.update(pw=s, **kw), [s], lambda st: set_state(st, "pw", len(s)), None, inplace)
+    if opname == "with_scores":  # whole-collection assignment runs the item preparer on every element
+        v = P["i1"]
+        lst = [v, "ab"]
+        return Op("with_scores(list)", lambda o: o.with_scores(lst, **kw), [lst], lambda st: set_state(st, "scores", [v, 2]), None, inplace)
+    raise AssertionError(opname)
+
+
+K5_OPS = ["with_pw_str", "with_pw_int", "setattr_pw_str", "update_pw_str", "with_scores"]
+
+
+# ---------------------------------------------------------------------------------------------------------------------
+# K2: containers of scalars (element helpers + whole-collection assignment), conforming and non-conforming arguments.
+# Effects are not modelled here (C06 owns them); ops carry `must_raise` for ill-typed arguments.
+
+
+def build_k2(NS, P):
+    n = P["n"]
+    assume(0 <= n <= 2)
+    e = P["e"]
+    nums = [e[t] for t in range(n)]
+    opts = {k: e[t] for t, k in enumerate(["a", "b"][:n])}
+    tags = [["a", "b"][t] for t in range(n)]
+    return NS.K2(nums=nums, opts=opts, tags=tags, y=P["n0"])
+
+
+def build_k2_sets(NS, P):
+    n = P["n"]
+    assume(0 <= n <= 2)
+    e = P["e"]
+    for t in range(2):
+        assume(0 <= e[t] <= 2)
+    return NS.K2(vals={e[t] for t in range(n)}, y=P["n0"])
+
+
+K2_OPS = [
+    "with_num", "with_num_index", "with_num_insert", "update_num", "transform_num", "without_num", "with_nums", "setattr_nums", "reset_nums",
+    "with_opt", "update_opt", "transform_opt", "without_opt", "with_opts", "with_tag", "with_tags", "update2_cols",
+]
+K2_SET_OPS = ["with_val", "update_val", "transform_val", "without_val", "with_vals"]
+
+
+def _mk(name, call, args, inplace, must_raise=False, fails=(TypeError, ValueError, IndexError, KeyError), note=""):
+    op = Op(name, call, args, None, fails, inplace, False, note)
+    op.must_raise = must_raise
+    return op
+
+
+def k2_ops(opname, P, inplace, conform=True):
+    kw = {"_inplace": True} if inplace else {}
+    bad_int = lambda: pick([None, "s", 1.5, [1]], P["bad"])
+    bad_str = lambda: pick([None, 3, 1.5, ["a"]], P["bad"])
+    v = P["i1"] if conform else bad_int()
+    i = P["i"]
+    if opname == "with_num":
+        return _mk("with_num", lambda o: o.with_num(v, **kw), [v], inplace, not conform)
+    if opname == "with_num_index":
+        assume(-3 <= i <= 3)
+        return _mk("with_num(_index)", lambda o: o.with_num(v, _index=i, **kw), [v], inplace, False, note="bad" if not conform else "")
+    if opname == "with_num_insert":
+        assume(-3 <= i <= 3)
+        return _mk("with_num(_insert)", lambda o: o.with_num(v, _index=i, _insert=True, **kw), [v], inplace, not conform)
+    if opname == "update_num":
+        assume(-3 <= i <= 3)
+        return _mk("update_num", lambda o: o.update_num(i, v, _by_index=True, **kw), [v], inplace, False, note="bad" if not conform else "")
+    if opname == "transform_num":
+        assume(-3 <= i <= 3)
+        kind = pick(["add", "raise", "wrong"], P["fk"])
+        fn = fn_add(P["i2"]) if kind == "add" else (fn_raise if kind == "raise" else fn_wrong)
+        return _mk("transform_num", lambda o: o.transform_num(i, fn, _by_index=True, **kw), [fn], inplace, False, fails=(TypeError, ValueError, IndexError, KeyError, CallbackFail), note=kind)
+    if opname == "without_num":
+        assume(-3 <= i <= 3)
+        return _mk("without_num", lambda o: o.without_num(i, _by_index=True, **kw), [], inplace)
+    if opname == "with_nums":  # whole-collection assignment: conforming list / list with an ill-typed element / not a list
+        kind = pick(["ok", "bad-elem", "bad-last", "not-iterable", "tuple"], P["fk"])
+        if kind == "ok":
+            val = [P["i1"], P["i2"]]
+        elif kind == "bad-elem":
+            val = [bad_int(), P["i1"]]
+        elif kind == "bad-last":
+            val = [P["i1"], bad_int()]
+        elif kind == "not-iterable":
+            val = 5
+        else:
+            val = (P["i1"], P["i2"])
+        return _mk("with_nums", lambda o: o.with_nums(val, **kw), [val], inplace, kind in ("bad-elem", "bad-last", "not-iterable"), note=kind)
+    if opname == "setattr_nums":
+        kind = pick(["ok", "bad-last"], P["fk"])
+        val = [P["i1"], P["i2"]] if kind == "ok" else [P["i1"], bad_int()]
+
+        def call(o):
+            o.nums = val
+            return o
+
+        return _mk("setattr_nums", call, [val], True, kind != "ok", note=kind)
+    if opname == "reset_nums":
+        return _mk("reset_nums", lambda o: o.reset_nums(**kw), [], inplace)
+    key = pick(["a", "b", "c"], P["k"]) if P.get("keyok", True) else pick([3, None, 1.5], P["bad"])
+    if opname == "with_opt":
+        return _mk("with_opt", lambda o: o.with_opt(key, v, **kw), [v], inplace, (not conform) or not P.get("keyok", True))
+    if opname == "update_opt":
+        return _mk("update_opt", lambda o: o.update_opt(key, v, **kw), [v], inplace, False, note="bad" if not conform else "")
+    if opname == "transform_opt":
+        kind = pick(["add", "raise", "wrong"], P["fk"])
+        fn = fn_add(P["i2"]) if kind == "add" else (fn_raise if kind == "raise" else fn_wrong)
+        return _mk("transform_opt", lambda o: o.transform_opt(key, fn, **kw), [fn], inplace, False, fails=(TypeError, ValueError, IndexError, KeyError, CallbackFail), note=kind)
+    if opname == "without_opt":
+        return _mk("without_opt", lambda o: o.without_opt(key, **kw), [], inplace)
+    if opname == "with_opts":
+        kind = pick(["ok", "bad-value", "bad-key", "not-mapping"], P["fk"])
+        val = {"ok": {"x": P["i1"], "z": P["i2"]}, "bad-value": {"x": P["i1"], "z": "s"}, "bad-key": {"x": P["i1"], 7: 1}, "not-mapping": [1]}[kind]
+        return _mk("with_opts", lambda o: o.with_opts(val, **kw), [val], inplace, kind != "ok", note=kind)
+    if opname == "with_tag":
+        t = P["s1"] if conform else bad_str()
+        return _mk("with_tag", lambda o: o.with_tag(t, **kw), [t], inplace, not conform)
+    if opname == "with_tags":
+        kind = pick(["ok", "bad-last"], P["fk"])
+        val = ["p", P["s1"]] if kind == "ok" else ["p", bad_str()]
+        return _mk("with_tags", lambda o: o.with_tags(val, **kw), [val], inplace, kind != "ok", note=kind)
+    if opname == "update2_cols":  # multi-attribute update: two keywords, the failing one first or second
+        good = [P["i1"]]
+        badv = [P["i1"], bad_int()] if not conform else [P["i2"]]
+        if P["b1"]:
+            kws = {"nums": good, "tags": ["z"], "y": P["i2"]} if conform else {"nums": badv, "y": P["i2"]}
+        else:
+            kws = {"y": P["i2"], "nums": good} if conform else {"y": P["i2"], "nums": badv}
+        return _mk("update(y,nums)", lambda o: o.update(**kws, **kw), list(kws.values()), inplace, not conform, note="first" if P["b1"] else "second")
+    raise AssertionError(opname)
+
+
+def k2_set_ops(opname, P, inplace, conform=True):
+    kw = {"_inplace": True} if inplace else {}
+    x = P["i"]
+    assume(0 <= x <= 2)
+    v = P["i1"]
+    if conform:
+        assume(0 <= v <= 3)
+    else:
+        v = pick([None, "s", 1.5], P["bad"])
+    if opname == "with_val":
+        return _mk("with_val", lambda o: o.with_val(v, **kw), [v], inplace, not conform)
+    if opname == "update_val":
+        return _mk("update_val", lambda o: o.update_val(x, v, **kw), [v], inplace, False, note="bad" if not conform else "")
+    if opname == "transform_val":
+        kind = pick(["add", "raise", "wrong"], P["fk"])
+        fn = fn_add(1) if kind == "add" else (fn_raise if kind == "raise" else fn_wrong)
+        return _mk("transform_val", lambda o: o.transform_val(x, fn, **kw), [fn], inplace, False, fails=(TypeError, ValueError, IndexError, KeyError, CallbackFail), note=kind)
+    if opname == "without_val":
+        return _mk("without_val", lambda o: o.without_val(x, **kw), [], inplace)
+    if opname == "with_vals":
+        kind = pick(["ok", "bad-elem", "list"], P["fk"])
+        val = {"ok": {1, 3}, "bad-elem": {1, "s"}, "list": [1, 2]}[kind]
+        return _mk("with_vals", lambda o: o.with_vals(val, **kw), [val], inplace, kind == "bad-elem", note=kind)
+    raise AssertionError(opname)
